@@ -45,6 +45,7 @@ var declText = map[string]string{
 	"Nest": "struct Nest\n\tp: Pt\n\tn: int32\nend\n",
 	"Cont": "struct Cont\n\tl: Vec<int32>\n\tm: Map<str,int32>\n\tp: Vec<Pt>\n\tq: Map<str,Pt>\nend\n",
 	"Deep": "struct Deep\n\tn: Nest\n\tl: Vec<Nest>\nend\n",
+	"Lst":  "struct Lst\n\tn: int32\n\tl: Vec<int32>\nend\n",
 	"En":   "enum En\n\tone = 1\n\ttwo = 2\nend\n",
 	// hygiene: struct members and names
 	"KwFields":   "struct KwFields\n\ttype: int32\n\tfunc: str\n\trange: bool\nend\n",
@@ -92,6 +93,8 @@ func structParts(name string) []string {
 		return []string{"Vec<int32>", "Map<str,int32>", "Vec<Pt>", "Map<str,Pt>", "Pt", "int32", "str"}
 	case "Deep":
 		return []string{"Nest", "Vec<Nest>", "Pt", "int32", "str"}
+	case "Lst":
+		return []string{"int32", "Vec<int32>"}
 	}
 	return nil
 }
@@ -135,9 +138,11 @@ func uniqStr(xs []string) []string {
 var mapKeys = []string{"bool", "int8", "uint8", "int16", "uint16", "int32", "uint32", "int64", "uint64", "float32", "float64", "str"}
 
 // typeUniverse: every scalar; depth 1: Vec<s>, Map<str,s>, Map<k,int32>,
-// tuples, structs, enum; depth 2 (thorough): Vec<t>, Map<str,t>, Map<int32,t>
-// for every depth-1 container t over every scalar, for tuples, structs and the
-// enum; nested tuples and nested structs.
+// tuples, structs, enum; both tiers: the three kinds of list of containers
+// (Vec<Vec<int32>>, Vec<Map<str,int32>>, Vec<Lst> with Lst a struct holding a
+// Vec); depth 2 (thorough): Vec<t>, Map<str,t>, Map<int32,t> for every depth-1
+// container t over every scalar, for tuples, structs and the enum; nested
+// tuples and nested structs.
 func typeUniverse(depth int) []typeSpec {
 	var ts []typeSpec
 	for _, s := range scalars {
@@ -156,9 +161,13 @@ func typeUniverse(depth int) []typeSpec {
 		}
 	}
 	ts = append(ts, tuple(i32, str), tuple(scalarType("float64")), tuple(scalarType("bool"), scalarType("any"), scalarType("uint16")))
-	for _, d := range []string{"Pt", "Sc", "Sw", "En"} {
+	for _, d := range []string{"Pt", "Sc", "Sw", "En", "Lst"} {
 		ts = append(ts, declType(d))
 	}
+	// lists of containers, one per kind of inner container (inner list, inner
+	// map, struct holding a list): the reflection decoder of the proxy fills
+	// such a list item by item
+	ts = append(ts, vec(vec(i32)), vec(mapOf(str, i32)), vec(declType("Lst")))
 	if depth < 2 {
 		return ts
 	}
@@ -172,7 +181,7 @@ func typeUniverse(depth int) []typeSpec {
 		ts = append(ts, vec(t), mapOf(str, t), mapOf(i32, t))
 	}
 	ts = append(ts, tuple(vec(i32), mapOf(str, str)), tuple(declType("Pt"), i32), tuple(tuple(i32, str), str))
-	for _, d := range []string{"Nest", "Cont", "Deep"} {
+	for _, d := range []string{"Nest", "Cont", "Deep", "Lst"} {
 		ts = append(ts, declType(d), vec(declType(d)), mapOf(str, declType(d)))
 	}
 	// dedupe by expression
